@@ -162,13 +162,13 @@ int main(int argc, char **argv)
     // input on which a comparison that stops at a NUL (strncmp, strlen-bounded memcmp) goes wrong
     if (std::string(argv[argc - 1]) == "zk")
       key[(n + cm + T) % 15] = 0; // a key with an embedded NUL: C-string handling of the key truncates it
-    bool zerotag = std::string(argv[argc - 1]) == "zt";
-    for (int tries = 0; zerotag && tries < 4000; ++tries)
+    bool zerotag = std::string(argv[argc - 1]) == "zt", zerofirst = std::string(argv[argc - 1]) == "z0";      // z0: the tag BEGINS with 0x00
+    for (int tries = 0; (zerotag || zerofirst) && tries < 6000; ++tries)
     {
       OpResult e0 = wv_encrypt(P, key, cm, hm, seed, T);
       int hl = hm == 0 ? 20 : hm == 1 ? 16 : 32;
       bool has = false;
-      for (int i = 0; i + 1 < hl && e0.out.size() > (size_t)(10 + i); ++i)
+      for (int i = 0; i + 1 < (zerofirst ? 2 : hl) && e0.out.size() > (size_t)(10 + i); ++i)
         if (e0.out[10 + i] == 0)
           has = true;
       if (has)
